@@ -209,7 +209,8 @@ def rs_handshake(col, shard, nshards, stride, offset):
     rs, _ = _mods()
     d = drv.get_driver()
     server_sets = [["json", "msgpack", "cbor", "ubjson"], ["json"], ["cbor", "msgpack"]]
-    vals = [v for v in range(offset, 65536, stride)][shard::nshards]
+    # the 256 values whose first octet is the magic 0x7F decide everything that follows: always all of them, the rest by stride
+    vals = sorted(set(range(offset, 65536, stride)) | set(range(0x7F00, 0x8000)))[shard::nshards]
     from harness.core import guarded_blocks
     for v in guarded_blocks(vals):
         b0, b1 = v >> 8, v & 0xFF
